@@ -442,16 +442,20 @@ func (x *FnExec) materialize(v Val) string {
 	for _, p := range a.Path {
 		fname += fmt.Sprintf("_%d", p.Field)
 	}
+	var loc string
 	switch a.Root {
 	case rootElem:
 		x.q.declareFun(fname, []string{"Ref", x.q.intSort()}, "Ref")
-		return fmt.Sprintf("(%s %s %s)", fname, a.Base, a.Idx)
+		loc = fmt.Sprintf("(%s %s %s)", fname, a.Base, a.Idx)
 	case rootGlobal:
 		x.q.declare(fname, "Ref")
-		return fname
+		loc = fname
+	default:
+		x.q.declareFun(fname, []string{"Ref"}, "Ref")
+		loc = fmt.Sprintf("(%s %s)", fname, a.Base)
 	}
-	x.q.declareFun(fname, []string{"Ref"}, "Ref")
-	return fmt.Sprintf("(%s %s)", fname, a.Base)
+	x.q.assert(not(eq(loc, "nil"))) // the address of an existing field / element / variable is never nil
+	return loc
 }
 
 func (x *FnExec) scalar(v Val) string {
